@@ -38,7 +38,7 @@ META = {
                     "every key stored in one mapping is a proxy (no mixing with concrete keys)"],
     "bounds": {"quick": {"pre_state_pairs_max": 3, "pre_state_pairs_all_ops": 2, "ops": len(OPS)}, "thorough": {"pre_state_pairs_max": 4, "pre_state_pairs_all_ops": 3, "ops": len(OPS)}},
     "outside": ["pre-states longer than the bound (the step argument is inductive only up to that length)", "non-hashable / exotic key types",
-                "QueryParams string round trip (urlencode/parse_qsl are stdlib code outside this engine's reach)"],
+                "query-string round trip: texts longer than the enumerated shapes (<= 3 characters per text, <= 3 pairs); lone surrogates (not text)"],
     "expect_kinds": {"all": ["ok", "keyerror"]},
 }
 
@@ -273,6 +273,8 @@ def concrete_check(op, init, k, v, w, k2, probe):
 
 
 def run_job(job) -> report.JobResult:
+    if job.get("kind") == "roundtrip":
+        return job_roundtrip(job)
     res = report.JobResult.new(job["name"])
     twin = job.get("twin", False)
     op, n = job["op"], job["n"]
@@ -327,9 +329,105 @@ def run_job(job) -> report.JobResult:
     return res
 
 
+# ------------------------------------------------------------------ QueryParams(str(q)) == q
+# what urlencode / parse_qsl look for: separators, the escape character, '+' / space; every other character is either passed through
+# or percent-encoded as UTF-8 bytes and decoded back -- a class-correct placeholder (ASCII / Latin-1 / beyond) takes the same route
+QS_SENSITIVE = tuple(sorted(ord(c) for c in "&=+%; "))
+
+
+def job_roundtrip(job) -> report.JobResult:
+    """a query mapping parsed from its own string form equals itself: keys/values are texts over full Unicode; urlencode / parse_qsl run
+    unmodified on real strings in which query-sensitive code points are real characters and all others class-correct placeholders"""
+    from engine.symseq import SStr
+    from . import gw
+    res = report.JobResult.new(job["name"])
+    twin = job.get("twin", False)
+    shape = job["shape"]  # per pair (key length, value length)
+    eng = Engine(budget_s=900)
+    eng.char_alphabet = "c1"
+    eng.sensitive_chars = QS_SENSITIVE
+    texts = []
+    for i, (lk, lv) in enumerate(shape):
+        k = SStr.fresh(lk, f"k{i}_", 0, 0x10FFFF, eng.solver)
+        v = SStr.fresh(lv, f"v{i}_", 0, 0x10FFFF, eng.solver)
+        for c in k.items + v.items:
+            eng.solver.add(z3.Or(c.e < 0xD800, c.e > 0xDFFF), c.e < 0xF0000)  # text: no lone surrogates; placeholder plane reserved
+        texts.append((k, v))
+
+    def fn():
+        e = cur()
+        pairs = []
+        for i, (k, v) in enumerate(texts):
+            kk = k
+            # equal keys must be the SAME text in the mapping: decide key coincidence with earlier same-length keys by a fork
+            for pk, _ in texts[:i]:
+                if len(pk.items) == len(k.items) and k.items and all(bool(a == b) for a, b in zip(pk.items, k.items)):
+                    kk = pk
+                    break
+            pairs.append((str(kk), str(v)))
+        q = QueryParams(pairs)
+        text = str(q)
+        q2 = QueryParams(text)
+        if twin:
+            raise Fail("twin-assert-false")
+        a, b = q.multi_items(), q2.multi_items()
+        if len(a) != len(b):
+            raise Fail("roundtrip-pair-count", f"{len(a)} pairs -> {text!r} -> {len(b)} pairs")
+        for (ak, av), (bk, bv) in zip(a, b):
+            if not gw.same_items(e, ak, bk) or not gw.same_items(e, av, bv):
+                raise Fail("roundtrip-pair-changed")
+        if not (q2 == q):
+            raise Fail("roundtrip-not-equal", "QueryParams(str(q)) != q although the item lists agree")
+        return "ok"
+
+    def on_path(e, r):
+        kind, v = r
+        klass = detail = None
+        if kind == "exc":
+            klass, detail = (v.klass, v.detail) if isinstance(v, Fail) else (f"exception:{type(v).__name__}", repr(v))
+        if klass != "roundtrip-pair-changed":
+            e.last_sat = False
+        m = e.witness()
+        wit = {"pairs": [[conc(k, m), conc(v_, m)] for k, v_ in texts]}
+        cp = concrete_roundtrip(wit)
+        if klass is not None:
+            res.violation(f"C17/query-string-roundtrip/{klass.split(':')[0]}", wit, f"{klass} {detail}; concrete: {cp}", (cp is not None) or twin)
+            return
+        res.kind("ok")
+        if cp is not None:
+            res["harness_errors"].append(f"symbolic path holds but concrete run fails: {wit}: {cp}")
+        res["validated"] += 1
+        res.sample(wit, limit=1)
+
+    eng.explore(fn, on_path)
+    res.absorb_engine(eng)
+    return res
+
+
+def concrete_roundtrip(w):
+    prev = Engine.cur
+    Engine.cur = None
+    try:
+        q = QueryParams([tuple(p) for p in w["pairs"]])
+        q2 = QueryParams(str(q))
+        if q2.multi_items() != q.multi_items() or not (q2 == q):
+            return f"{q.multi_items()!r} -> {str(q)!r} -> {q2.multi_items()!r}"
+        return None
+    except Exception as ex:  # noqa: BLE001
+        return f"exception {type(ex).__name__}: {ex}"
+    finally:
+        Engine.cur = prev
+
+
 def jobs(tier: str):
     nmax = META["bounds"][tier]["pre_state_pairs_max"]
     out = []
+    shapes = [[], [(0, 0)], [(1, 0)], [(0, 1)], [(1, 1)], [(2, 1)], [(1, 2)], [(1, 1), (1, 1)], [(1, 0), (1, 1)], [(0, 1), (1, 0)]]
+    if tier == "thorough":
+        shapes += [[(2, 2)], [(1, 1), (1, 1), (1, 1)], [(2, 1), (2, 1)], [(1, 3)]]
+    for sh in shapes:
+        out.append(dict(name="roundtrip/" + ("+".join(f"k{a}v{b}" for a, b in sh) or "empty"), kind="roundtrip", shape=sh, weight=8 ** sum(a + b for a, b in sh)))
+    out.append(dict(name="twin/roundtrip", kind="roundtrip", shape=[(1, 1)], twin=True))
     core = ("assign", "delete", "setlist1", "poplist", "append")
     for op in OPS:
         for n in range(0, nmax + 1):
@@ -342,6 +440,10 @@ def jobs(tier: str):
 
 def replay(rec) -> int:
     w = rec["witness"]
+    if "pairs" in w:
+        cp = concrete_roundtrip(w)
+        print(f"replay C17: {w} -> {cp}")
+        return 1 if cp else 0
     cp = concrete_check(w["op"], [tuple(p) for p in w["initial_pairs"]], w["k"], w["v"], w["w"], w["k2"], w["probe"])
     print(f"replay C17: {w} -> {cp}")
     return 1 if cp else 0
